@@ -779,6 +779,14 @@ func (c *Conn) writeApplicationData(ctx context.Context, pkts []*dtlsflight.Pack
 
 // Close closes the connection.
 func (c *Conn) Close() error {
+	// An imported connection is an established session even if the application
+	// never read from or wrote to it. Start its state machine in the finished
+	// state first, as Read and Write do, so that it is closed like any other
+	// established connection and the peer receives the close_notify.
+	if c.handshakeConfig != nil && c.handshakeConfig.ResumeState != nil && !c.isConnectionClosed() {
+		_ = c.HandshakeContext(context.Background())
+	}
+
 	err := c.close(true)
 	c.closeLock.Lock()
 	handshakeDone := c.handshakeDone
